@@ -51,17 +51,27 @@ def tokAcc (s0 : String) : Option (Acc × UInt16) :=
       pure (acc, addr)
   | _ => none
 
+/-- one step of a `regs` sequence: an accessor call, or `wbo@<order>` = the view is configured again
+(`WithByteOrder`) in the middle of the sequence -/
+inductive RStep where
+  | acc (a : Acc) (addr : UInt16)
+  | wbo (o : UInt8)
+
+def tokStep (s : String) : Option RStep :=
+  if s.startsWith "wbo@" then (tokU8 (s.drop 4).toString).map RStep.wbo
+  else (tokAcc s).map fun (a, addr) => RStep.acc a addr
+
 structure RegsOp where
   data : Bytes
   spare : Bytes
   start : UInt16
   order : UInt8
-  ops : List (Acc × UInt16)
+  ops : List RStep
 
 def parseRegsOp (ts : List String) : Option RegsOp :=
   match ts with
   | ["regs", d, sp, st, o, ops] => do
-    let ops ← (ops.splitOn ";").mapM tokAcc
+    let ops ← (ops.splitOn ";").mapM tokStep
     pure { data := ← unhex d, spare := ← unhex sp, start := ← tokU16 st, order := ← tokU8 o, ops }
   | _ => none
 
@@ -74,12 +84,17 @@ def RegsOp.modelOut (op : RegsOp) : String :=
   match newRegisters ⟨op.data, op.spare⟩ op.start with
   | .ok r0 =>
     let r0 := if op.order = 0 then r0 else { r0 with order := op.order }
-    -- the sequence threads the payload through
-    let (outs, final) := op.ops.foldl (fun (acc : List String × Slice) (a : Acc × UInt16) =>
-      let r := { r0 with data := acc.2 }
-      let (res, d') := r.access a.1 a.2
-      (acc.1 ++ [valRes res], d')) ([], r0.data)
-    let solo := op.ops.map fun a => valRes (r0.access a.1 a.2).1
+    -- the sequence threads the payload and the configured order through; "alone" = the same call on a fresh view
+    -- configured with the order in force at that point
+    let (outs, solo, final, _) := op.ops.foldl (fun (acc : List String × List String × Slice × UInt8) (st : RStep) =>
+      let (outs, solo, d, cur) := acc
+      match st with
+      | .wbo o => (outs ++ ["ok set"], solo ++ ["ok set"], d, o)
+      | .acc a addr =>
+        let r := { r0 with data := d, order := cur }
+        let (res, d') := r.access a addr
+        (outs ++ [valRes res], solo ++ [valRes (({ r0 with order := cur }).access a addr).1], d', cur))
+      ([], [], r0.data, r0.order)
     ";".intercalate outs ++ " | " ++ ";".intercalate solo ++ " after=" ++ hex final.vis
   | .err e => e.str
   | .panic => "PANIC"
@@ -90,10 +105,13 @@ def judgeC04 (op : RegsOp) (out : String) : Expect :=
   if op.data.length < 2 || op.data.length % 2 != 0 then .anyErr else
   if op.start.toNat + n > 65536 then .noPanic else
   let dflt : UInt8 := if op.order = 0 then 9 else op.order
-  let exp := op.ops.map fun (a, addr) =>
-    match Spec.access dflt op.data op.start.toNat a addr.toNat with
-    | some v => "ok " ++ v.str'
-    | none => "err plain"
+  let exp := (op.ops.foldl (fun (acc : List String × UInt8) (st : RStep) =>
+    match st with
+    | .wbo o => (acc.1 ++ ["ok set"], o)
+    | .acc a addr =>
+      (acc.1 ++ [match Spec.access acc.2 op.data op.start.toNat a addr.toNat with
+        | some v => "ok " ++ v.str'
+        | none => "err plain"], acc.2)) ([], dflt)).1
   match out.splitOn " | " with
   | [seq, _] =>
     let got := seq.splitOn ";"
